@@ -1762,6 +1762,10 @@ main(int argc, char **argv) {
   if (vxp_replay_if_match(msg_major.name, one_case, &msg_major) || vxp_replay_if_match(ctx_major.name, one_case, &ctx_major) ||
       vxp_replay_if_match(full.name, one_case, &full) || vxp_replay_if_match(tamper->name, one_case, tamper))
     return 0;
+  if (vx_replay_path()) {
+    fprintf(stderr, "replay file does not match any space\n");
+    return 2;
+  }
 
 #ifdef C14_FULL
   /* second stage (variant "fast", thorough only): the complete product */
